@@ -8,10 +8,13 @@ import datetime
 A1_FORMS = ['contains("ALFA")', 'regex("AL.A")', '"alfa" in description', 'anyof("ZZZZ", "alfa")',
             'normalized("AL-FA")', 'contains(description, "Alfa")', 'regex("\\\\bALFA\\\\b")']
 A2_FORMS = ['amount > 100', 'amount >= 100.5', 'abs(amount) > 100', '(amount * 2 > 200)', '100 < amount',
-            '(amount > 100 and amount < 1000)']
+            '(amount > 100 and amount < 1000)', '1000 > amount > 100', '0 < 100 < amount']
 # the same atom with the other polarity: true of small amounts (0, 50, -20), false of 150
-A2_LOW_FORMS = ['amount < 100', 'amount <= 99.5', '100 > amount', 'not amount >= 100', '(amount < 100 and amount <= 120)']
-A2_LOW_CSV = ['[amount<100]', '[amount<=99.5]', '[amount<100]', '[amount<100]', '[amount<100][amount<=120]']
+A2_LOW_FORMS = ['amount < 100', 'amount <= 99.5', '100 > amount', 'not amount >= 100', '(amount < 100 and amount <= 120)',
+                # chained comparisons: every link counts (150 passes the first link and fails the second)
+                '-1000 < amount < 100', '-1000 <= amount <= 99.5', '1000 > amount > -1000 < 100 > amount']
+A2_LOW_CSV = ['[amount<100]', '[amount<=99.5]', '[amount<100]', '[amount<100]', '[amount<100][amount<=120]',
+              '[amount<100]', '[amount<=99.5]', '[amount<100]']
 LOW_AMOUNTS = [0.0, 0.0, 50.0, -20.0]
 AE_FORMS = ['field.kind == "ach"', 'contains(field.kind, "AC")', 'field.kind.lower() == "ach"',
             '"ACH" in field.kind', 'startswith(field.kind, "ach")']
@@ -20,7 +23,11 @@ AE_FORMS = ['field.kind == "ach"', 'contains(field.kind, "AC")', 'field.kind.low
 FIELD_NAMES = ['kind', 'kind', 'day', 'month', 'year', 'weekday']
 DYN_FORMS = ['{field.proj}', '{ field.proj }', '{extract(field.proj, "(P\\\\w+)")}', '{trim(field.proj)}',
              # case-sensitive pieces inside the expression text (\\S is not \\s, "X" is not "x"): the text is an expression, not a tag
-             '{extract(field.proj, "(P\\\\S+)")}', '{regex_replace(field.proj, "\\\\W", "")}', '{split(field.proj + "Zq", "Z", 0)}']
+             '{extract(field.proj, "(P\\\\S+)")}', '{regex_replace(field.proj, "\\\\W", "")}', '{split(field.proj + "Zq", "Z", 0)}',
+             # through a let: binding of the SAME rule (the tag belongs to its rule's bindings, not to the last rule's)
+             # (not wrapped in a function: a failed binding is None, and trim(None) is the text "None" in this language)
+             '{tagsrc}', '{ tagsrc }']
+DYN_LET = 'let: tagsrc = field.proj'
 CATS = {'C1': 'Food', 'C2': 'Bills & Utilities'}
 SUBS = {'S1': 'Sub One', 'S2': 'Sub Two'}
 MERCH = {'M1': 'Merch One', 'M2': 'Merch-Two'}
@@ -118,6 +125,8 @@ def rule_text(r, v, priority=None):
     props = []
     for l in r['lets']:
         props.append('let: %s = %s' % (l['n'], cond(l['c'], v)))
+    if 'dyn' in r['tags'] and 'tagsrc' in DYN_FORMS[v.dyn]:
+        props.append(DYN_LET)
     if 'shape' in r:
         props.append('match: ' + shape_expr(r, v))
         if r['shape'][0] != 50 or v.noise:
